@@ -727,7 +727,10 @@ def classify(chk, failing, traces, meta, known):
                 # wrong commits; a double leader explains them only if it was actually observed before
                 cands = ["match_is_follower_last_index", "stale_term_ae_response"]
                 if any(c == "ElectionSafety" and p <= pos for c, p in fl):
-                    cands.append("same_term_ae_clears_vote")
+                    if clause == "LogMatching":      # same index and term, different entry: two leaders of a term
+                        cands.insert(0, "same_term_ae_clears_vote")
+                    else:
+                        cands.append("same_term_ae_clears_vote")
             hit = [d for d in cands if d in known and 0 < first_fire.get(d, 0) <= pos] if reproduced else []
             if hit:
                 d = hit[0]
